@@ -10,4 +10,9 @@ Reg const r_peg{"peg_dynamic_char", Kind::random,
                 [] { run_random(*g_cur.sec, {50000, 40}, {200000, 48}); },
                 [](Ints const &c) { c02::real<char>::run_case(c, "char"); },
                 [](Ints const &c) { return c02::describe(c, "char"); }};
+Reg const r_long{"peg_long_inputs_char", Kind::exhaustive,
+                 "every case (inputs of 0..2000 characters / bracket depth up to 300 / up to 2000 earlier parses through the same parser objects, over grammars with a type-erased rule that fails and is backtracked over)",
+                 [] { c02::long_run<char>("char"); },
+                 [](Ints const &c) { c02::long_one<char>(c, "char"); },
+                 [](Ints const &c) { return c02::long_describe(c, "char"); }};
 }
